@@ -505,7 +505,9 @@ func blocks(thorough bool) []block {
 			gen: func(f func(string)) {
 				for cp := base; cp < base+32; cp++ {
 					s := encodeCP(cp)
-					f(s)
+					if thorough || base < 0x3000 {
+						f(s)
+					}
 					f("a" + s + "&")
 				}
 			}})
@@ -640,7 +642,7 @@ func main() {
 			"a case is one block of inputs (<= 553 strings) on a fresh engine; non-trivial = the block contains a significant character or a byte >= 0x80",
 		Assumptions: []string{
 			"strings longer than 1 MiB + 5 bytes and alphabet strings longer than the bound are not explored",
-			"in the quick tier code points >= U+3000 are swept on one route per escaping mechanism only (print tag = registered filter, ApplyFilter without environment = built-in fallback, macro text with and without environment); the thorough tier sweeps them on all routes",
+			"in the quick tier code points >= U+3000 are swept inside a?& only (not alone) and on one route per escaping mechanism only (print tag = registered filter, ApplyFilter without environment = built-in fallback, macro text with and without environment); the thorough tier sweeps them on all routes",
 			"the text a non-string value is converted to is taken from the statement for scalars, Stringers, byte slices and named strings, and from the unfiltered print tag of the same engine for lists, maps, structs and errors",
 			"input reaches the filter as a context value; string literals written in template source are the subject of C08/C04",
 		},
